@@ -172,6 +172,24 @@ fn seam_case(run: &Run, blocks: &[Block], code: &str) {
             assert_eq!(x.h_deg() + 1, y.h_deg());
         }
     }
+    // the same complex over Q (cross-ring clause: rank over Q = free rank over Z, bidegree by bidegree)
+    let (g0q, g1q, dmq) = (g0.clone(), g1.clone(), dmap.clone());
+    let build_q = move || -> KhComplex<Ratio<i64>> {
+        let summands = Grid::generate(0..=1isize, |i| if i == 0 { Summand::from_raw_gens(g0q.clone()) } else { Summand::from_raw_gens(g1q.clone()) });
+        let dm = dmq.clone();
+        let inner = ChainComplex::<KhGen, Ratio<i64>>::new(summands, 1, move |_i, z: &Lc<KhGen, Ratio<i64>>| {
+            let mut out = Lc::<KhGen, Ratio<i64>>::new();
+            for (x, a) in z.iter() {
+                if let Some(ys) = dm.get(x) {
+                    for (y, b) in ys {
+                        out.add_pair((*y, a * Ratio::from(*b)));
+                    }
+                }
+            }
+            out
+        });
+        KhComplex::verif_from_parts(inner, (Ratio::from(0), Ratio::from(0)), (0, 0), false)
+    };
     let (g0c, g1c) = (g0.clone(), g1.clone());
     let build = move || -> KhComplex<i64> {
         let summands = Grid::generate(0..=1isize, |i| if i == 0 { Summand::from_raw_gens(g0c.clone()) } else { Summand::from_raw_gens(g1c.clone()) });
@@ -226,6 +244,21 @@ fn seam_case(run: &Run, blocks: &[Block], code: &str) {
             }
         }
         Err(p) => run.fail(&format!("{key}:routeB"), &format!("panicked: {p}"), detail("".into())),
+    }
+    run.add("evaluations", 1);
+    match catch(move || bigraded_table(&build_q().into_bigraded().homology())) {
+        Ok(t) => {
+            let cells: std::collections::BTreeSet<(i64, i64)> = t.keys().chain(want.keys()).cloned().collect();
+            for c in cells {
+                let (rq, tq) = t.get(&c).map(|m| (m.rank, m.tors.len())).unwrap_or((0, 0));
+                let rz = want.get(&c).map(|m| m.rank).unwrap_or(0);
+                if rq != rz || tq != 0 {
+                    run.fail(&format!("{key}:Q"), &format!("bidegree {c:?}: rank over Q = {rq} (torsion entries: {tq}), free rank over Z = {rz}"), detail(show_table(&t)));
+                    break;
+                }
+            }
+        }
+        Err(p) => run.fail(&format!("{key}:Q"), &format!("panicked: {p}"), detail("".into())),
     }
 }
 
